@@ -37,11 +37,11 @@ def rebin(a, newshape):
     '''
     assert len(a.shape) == len(newshape)
 
-    slices = [slice(0, old, float(old) / new)
-              for old, new in zip(a.shape, newshape)]
-    coordinates = np.mgrid[slices]
+    # exactly `new` sample points per axis, at k * old / new (a float step in mgrid can yield one point too many)
+    steps = [float(old) / new for old, new in zip(a.shape, newshape)]
+    coordinates = np.mgrid[[slice(0, new) for new in newshape]]
     # choose the biggest smaller integer index
-    indices = coordinates.astype('i')
+    indices = [(c * step).astype('i') for c, step in zip(coordinates, steps)]
     return a[tuple(indices)]
 
 
